@@ -6,8 +6,11 @@
   Not modelled (oracles): the stage computations.  Per *attempt* the model consumes one script entry
       err   — the processed error estimate (after the NaN/inf → 1e6 rule and `max(err, 1e-6)`)
       fac0  — `f_savety / err ** (1/pord)`  (the floating-point power is taken from the run)
-  Event functions are functions of time only, `g_i(τ) = τ − c_i` (evaluated with the same subtraction
-  the user function performs), with a direction and a terminal flag per component.
+  Event functions are functions of the time along the step.  By default `g_i(τ) = τ − c_i` (evaluated with the
+  same subtraction the user function performs), with a direction and a terminal flag per component; with
+  `gfun := some g` component i is the arbitrary function `g i` (what `event(t, y_dense(t))` is along one step —
+  the theorems of Properties/C10.lean on the search quantify over every such function; the driver instantiates it
+  with nonlinear functions of time that the harness also hands to the real `Rodas`).
 -/
 import SolverzModel.Core.Ctl.FixedStep
 namespace Solverz
@@ -37,6 +40,7 @@ structure RodasEnv (α : Type) where
   opt : RodasOpt α
   events : List (EventSpec α)
   fixSlack : α := O.ofNat 1  -- `1 + 1e-8` in the code: a fixed-step run takes the remainder as its last step when t + h·slack ≥ tend
+  gfun : Option (Nat → α → α) := none   -- general event functions (component → time → value); `none`: g_i(τ) = τ − c_i
 
 structure RodasState (α : Type) where
   t : α
@@ -69,7 +73,10 @@ def hmin : α := E.O.mul (E.O.ofNat 16) (E.spacing E.t0)
 def hmaxV : α := match E.opt.hmax with | some h => h | none => E.O.abs (E.O.sub E.tend E.t0)
 def omin (a b : α) : α := if E.O.lt b a then b else a          -- np.minimum / min
 def omax (a b : α) : α := if E.O.lt a b then b else a
-def evalEvents (τ : α) : List α := E.events.map fun e => E.O.sub τ e.c
+def evalEvents (τ : α) : List α :=
+  match E.gfun with
+  | none => E.events.map fun e => E.O.sub τ e.c
+  | some g => (List.range E.events.length).map fun i => g i τ
 
 def init : RodasState α :=
   let dt0 := match E.opt.hinit with | some h => h | none => E.O.mul E.tiny (E.O.sub E.tend E.t0)
